@@ -299,16 +299,57 @@ def run_lines(cmd, lines, env=None, timeout=3600):
     return out, p.returncode, p.stderr
 
 
-def run_impl(exe, reqs, workdir):
+def run_impl(exe, reqs, workdir, env=None):
     """Run the harness; if it dies in-process (sanitizer abort on an inline request) re-run the
     remainder with every request forked so that the crash becomes an observation."""
     lines = list(enumerate(reqs))
     logf = os.path.join(workdir, "harness.log")
-    out, rc, err = run_lines([exe, logf], lines)
+    out, rc, err = run_lines([exe, logf], lines, env=env)
     if len(out) < len(lines):
         rest = [(i, l) for i, l in lines if i not in out]
-        out2, rc2, err2 = run_lines([exe, logf], rest, env={"HZ_FORK_ALL": "1"})
+        out2, rc2, err2 = run_lines([exe, logf], rest, env=dict(env or {}, HZ_FORK_ALL="1"))
         out.update(out2)
+    return out
+
+
+ENV_CLAUSE_READS = ("the answer depends on process-global state the library does not own: with every sticky floating-point "
+                    "exception flag raised and errno = ERANGE before the call it differs from the answer in a clean environment")
+ENV_CLAUSE_LEAVES = "the library leaves process-global state changed behind a call (rounding mode / stream formatting / global locale)"
+
+
+def environment_replica(mod, exe, reqs, impl, model, workdir, ctx, judge):
+    """DESIGN.md section 16 (sixth wave): the same requests once more in a 'dirty' environment (HZ_DIRTY_ENV: sticky FP flags
+    raised, errno = ERANGE before every request body). Every model is a function of the arguments and the modelled state only,
+    so the two runs must agree bit for bit; where they do not, the property's own oracle judges the dirty answer (`judge`), so
+    that a violated clause is reported with its request as a concrete input. Returns the list of failures."""
+    if os.environ.get("LP_NO_ENV_REPLICA") == "1" or not reqs:
+        return []
+    skip = getattr(mod, "ENV_REPLICA_SKIP", None)          # regex of ops whose observation is not a function of the request
+    dirty = run_impl(exe, reqs, workdir, env={"HZ_DIRTY_ENV": "1"})
+    out, ndiff = [], 0
+    for i, rq in enumerate(reqs):
+        a, b = impl.get(i, "harness-no-answer"), dirty.get(i, "harness-no-answer")
+        for ans, how in ((a, "clean"), (b, "dirty")):
+            if " env-changed:" in ans:
+                out.append(dict(kind="corr", clause=ENV_CLAUSE_LEAVES, detail="%s run: %s" % (how, ans[ans.index(" env-changed:"):][:200]),
+                                req=rq, impl=ans, model=model.get(i, "") if model else ""))
+                break
+        if a == b or (skip and re.search(skip, rq)) or "timeout" in (a.split(" ")[0], b.split(" ")[0]):
+            continue
+        ndiff += 1
+        sub = []
+        try:
+            sub = judge(rq, b, i) or []
+        except Exception as e:
+            sub = [dict(kind="corr", clause="comparator exception (environment replica)", detail=repr(e))]
+        for f in sub:
+            f["clause"] = f["clause"] + " [with sticky FP flags raised / errno = ERANGE before the call]"
+            f.update(req=rq, impl=b, model=model.get(i, "") if model else "")
+            out.append(f)
+        out.append(dict(kind="corr", clause=ENV_CLAUSE_READS, detail="clean: %s | dirty: %s" % (a[:300], b[:300]), req=rq, impl=b,
+                        model=model.get(i, "") if model else ""))
+    ctx["stats"]["environment-replica: requests re-run with FP flags raised and errno set"] = len(reqs)
+    ctx["stats"]["environment-replica: answers that differ"] = ndiff
     return out
 
 
@@ -469,6 +510,8 @@ def check(prop, tier, seed, replay=None):
                 fails.append(f)
             if len(ctx["samples"]) < 6 and i % max(1, len(reqs) // 6) == 0:
                 ctx["samples"].append(dict(req=rq[:400], impl=im[:300], model=mo[:300]))
+        fails += environment_replica(mod, exe, reqs, impl, model, workdir, ctx,
+                                     lambda rq, ans, i: mod.compare(rq, ans, model.get(i, "driver-no-answer"), ctx))
         if hasattr(mod, "finalize") and not replay:
             for f in (mod.finalize(ctx, exe) or []):
                 f.setdefault("req", ""); f.setdefault("impl", ""); f.setdefault("model", "")
@@ -485,6 +528,7 @@ def check(prop, tier, seed, replay=None):
             for f in (r or []):
                 f.update(req=rq, impl=impl.get(i, ""), model="")
                 fails.append(f)
+        fails += environment_replica(mod, exe, reqs, impl, None, workdir, ctx, lambda rq, ans, i: mod.oracle_only(rq, ans, ctx))
 
     # 4. verdict ------------------------------------------------------------------------------------
     kf = known_findings(prop)
